@@ -50,10 +50,30 @@ Fixpoint frag_close36 (x y : frag) : bool :=
   | _, _ => false
   end.
 
+(* a component whose multiplier is one is spliced into the mixture (1*f is f), any other is kept as a group.  When two
+   components have exactly equal mole numbers the exact model gives one to both and the float code 1.0000000000000002
+   to one of them: the comparison is made on structures in which every group with a multiplier within 2^-40 of one
+   is spliced, on both sides (composition and nesting are otherwise untouched). *)
+Fixpoint inline_units (x : frag) : frag :=
+  match x with
+  | FAtom a => FAtom a
+  | FGroup l =>
+      FGroup ((fix go (l : list (Q * frag)) : list (Q * frag) :=
+                 match l with
+                 | [] => []
+                 | (c, f) :: r =>
+                     match inline_units f with
+                     | FGroup g => if Qrel (-40) c 1 then (g ++ go r)%list else (c, FGroup g) :: go r
+                     | FAtom a => (c, FAtom a) :: go r
+                     end
+                 end) l)
+  end.
+Definition struct_close (x y : frag) : bool := frag_close36 (inline_units x) (inline_units y).
+
 Definition check_case (E : aenv) (T : ptable) (c : c11case) : bool :=
   match model_of E T (fst c), snd c with
   | RMOk m, ObsF s d name tm th =>
-      (frag_close36 (FGroup (f_struct (m_f m))) (FGroup s)
+      (struct_close (FGroup (f_struct (m_f m))) (FGroup s)
        && chk_opt d (f_density (m_f m))
        && opt_str_eqb (f_name (m_f m)) name
        && chk_opt tm (m_total_mass m) && chk_opt th (m_thickness m))%bool
@@ -67,7 +87,7 @@ Definition check_all := check_all_with the_env the_ptable.
 Definition diag_case (E : aenv) (T : ptable) (c : c11case) : string :=
   match model_of E T (fst c), snd c with
   | RMOk m, ObsF s d name tm th =>
-      ((if frag_close36 (FGroup (f_struct (m_f m))) (FGroup s) then "" else "structure ")
+      ((if struct_close (FGroup (f_struct (m_f m))) (FGroup s) then "" else "structure ")
        ++ (if chk_opt d (f_density (m_f m)) then "" else "density ")
        ++ (if opt_str_eqb (f_name (m_f m)) name then "" else "name ")
        ++ (if chk_opt tm (m_total_mass m) then "" else "total_mass ")
